@@ -184,6 +184,41 @@ def error_constructions(F, body):
     return out
 
 
+def rejection_edges(F, body):
+    """The decisions of `body` that refuse: (block, successor) pairs where the block ends in a conditional branch, every
+    normal path from the successor makes an error value (error_constructions) and the block itself can still avoid one.
+    A match guard or an `&&` added in front of an existing `Err` arm adds an edge without adding a construction."""
+    E = set()
+    for bb in sorted(body.normal_blocks()):
+        for s in body.stmts(bb):
+            r = s.get("r") or {}
+            if s.get("k") == "assign" and r.get("k") == "agg" and r.get("adt") == "std::result::Result" and r.get("vname") == "Err":
+                E.add(bb)
+        t = body.term(bb)
+        if t["k"] == "call":
+            c = t["callee"]
+            lc = c.get("resolved") if c.get("rlocal") else (c.get("def") if c.get("local") else None)
+            if lc and always_err(F, lc):
+                E.add(bb)
+    must = set(E)
+    changed = True
+    while changed:
+        changed = False
+        for bb in body.normal_blocks():
+            if bb not in must:
+                ss = body.succ(bb)
+                if ss and all(x in must for x in ss):
+                    must.add(bb); changed = True
+    out = []
+    for bb in sorted(body.normal_blocks()):
+        if bb in must or body.term(bb)["k"] != "switch":
+            continue
+        for x in sorted(set(body.succ(bb))):
+            if x in must:
+                out.append((body.where(bb), bb, x))
+    return out
+
+
 def own_errors(F, body):
     """Places where `body` itself makes an error its result: an `Err(..)` aggregate assigned to the return place, or a call
     into the return place of a local function all of whose results are Err (err_exit_code and friends).  Errors arriving
